@@ -89,3 +89,207 @@ pub fn recv(&mut self, stop_timer: &mut Option<Timer>, env: &mut Env) -> (r: Opt
 //@ prologue
 broadcast use prefix_trans, prefix_refl;
 //@ end
+
+//@ item CommandState::is_running
+//@ header
+pub fn is_running(&self) -> (r: bool)
+    ensures r == (*self is Running), // OBL:C09.is_running.exact
+//@ item CommandState::spawn
+//@ header
+pub(crate) fn spawn(&mut self, command: ArcCommand, mut spawnable: Spawnable, env: &mut Env) -> (r: Result<bool, IoError>)
+    ensures
+        // never a second process while one is owned: a running state is left alone and nothing is spawned
+        *old(self) is Running ==> r == Ok::<bool, IoError>(false) && *final(self) == *old(self) && *final(env) == *old(env), // OBL:C04.spawn.noop_while_running
+        // otherwise exactly one spawn attempt, of the spawnable that was passed in
+        !(*old(self) is Running) ==> pushed1(old(env), final(env)) && is_spawn(at(old(env), final(env), 0), spawnable.ver), // OBL:C09+C18.spawn.spawns_the_given_spawnable_once
+        !(*old(self) is Running) && r is Ok ==> r == Ok::<bool, IoError>(true) && spawn_ok(at(old(env), final(env), 0)) && *final(self) is Running
+            && running_cid(cs_view(final(self))) == spawn_cid(at(old(env), final(env), 0))
+            && final(env).live@ =~= old(env).live@.insert(running_cid(cs_view(final(self)))), // OBL:C04.spawn.owns_the_new_child
+        !(*old(self) is Running) && r is Err ==> !spawn_ok(at(old(env), final(env), 0)) && *final(self) == *old(self) && final(env).live == old(env).live, // OBL:C04.spawn.failure_leaves_state
+        final(env).raised == old(env).raised, final(env).now@ >= old(env).now@,
+//@ item CommandState::reset
+//@ header
+pub(crate) fn reset(&mut self, env: &mut Env) -> (r: Self)
+    requires !(*old(self) is Running), // OBL:C04.reset.never_drops_a_live_child
+    ensures
+        *final(self) is Pending, // OBL:C09.reset.pending_after
+        cs_view(&r) == cs_view(old(self)), // OBL:C09.reset.returns_the_retired_state
+        same_world(old(env), final(env)), final(env).now == old(env).now,
+//@ item CommandState::wait
+//@ header
+pub(crate) fn wait(&mut self, env: &mut Env) -> (r: Result<bool, IoError>)
+    ensures
+        !(*old(self) is Running) ==> r == Ok::<bool, IoError>(false) && *final(self) == *old(self) && *final(env) == *old(env), // OBL:C09.wait.noop_unless_running
+        *old(self) is Running ==> pushed1(old(env), final(env)) && is_wait(at(old(env), final(env), 0), running_cid(cs_view(old(self))), r is Ok), // OBL:C04.wait.one_reap_attempt
+        *old(self) is Running && r is Ok ==> r == Ok::<bool, IoError>(true) && *final(self) is Finished && started_of(cs_view(final(self))) == started_of(cs_view(old(self)))
+            && final(env).live@ =~= old(env).live@.remove(running_cid(cs_view(old(self)))), // OBL:C04.wait.finished_only_after_reap
+        *old(self) is Running && r is Err ==> *final(self) == *old(self) && final(env).live == old(env).live, // OBL:C04.wait.failure_keeps_running
+        final(env).raised == old(env).raised, final(env).now@ >= old(env).now@,
+//@ item signal_child
+//@ header
+fn signal_child(signal: Signal, child: &mut Child, env: &mut Env) -> (r: Result<(), IoError>)
+    ensures
+        final(child).cid == old(child).cid,
+        // exactly one signal, the requested one or SIGTERM if it has no OS number; never a kill
+        pushed1(old(env), final(env)) && is_signal(at(old(env), final(env), 0), old(child).cid, delivered(signal), r is Ok), // OBL:C06+C09.signal_child.requested_signal_or_sigterm
+        final(env).live == old(env).live, final(env).raised == old(env).raised, final(env).now@ >= old(env).now@,
+//@ prologue
+broadcast use axiom_terminate_to_nix;
+//@ closure 0
+-> (vx_r: Option<NixSignal>) ensures vx_r is Some && vx_r->Some_0.n == SIGTERM
+//@ item Loop
+
+//@ def OV view(&*old(command_state), *old(previous_run), *old(stop_timer), old(on_end)@, *old(on_end_restart), *old(error_handler), *old(spawn_hook))
+//@ def FV view(&*final(command_state), *final(previous_run), *final(stop_timer), final(on_end)@, *final(on_end_restart), *final(error_handler), *final(spawn_hook))
+//@ def ENVS old(env), final(env)
+//@ def STATE_PARAMS command: &ArcCommand, command_state: &mut CommandState, previous_run: &mut Option<CommandState>, stop_timer: &mut Option<Timer>, on_end: &mut Vec<Flag>, on_end_restart: &mut Option<Flag>, error_handler: &mut ErrorHandler, spawn_hook: &mut SpawnHook, env: &mut Env
+//@ def RAISE_LOOP_PRE let ghost vx_l = *env; let ghost vx_oe = on_end@;
+//@ def INV_SM invariant env.live == vx_l.live, env.log == vx_l.log, env.now == vx_l.now, vx_it.seq() == vx_oe, 0 <= vx_it.index@ <= vx_oe.len(), env.raised@ =~= vx_l.raised@.union(prefix_ids(vx_oe, vx_it.index@ as int)),
+
+//@ def ARMED_PRE *old(stop_timer) is Some ==> control is Stop || control is Delete || control is NextEnding
+//@ def CH_PARAMS control: Control, done: Flag, $STATE_PARAMS
+//@ def LOOPS3 //@ loop 0 iter=vx_it\n$RAISE_LOOP_PRE\n$INV_SM\n//@ loop 1 iter=vx_it\n$RAISE_LOOP_PRE\n$INV_SM\n//@ loop 2 iter=vx_it\n$RAISE_LOOP_PRE\n$INV_SM
+
+// ---- the control handler (select arm 2 of start_job) is verified once per control (group): `requires control is X` selects the
+// arm, every clause is proved for each group, and lemma_control_groups_cover shows the groups are exhaustive. Same extracted body every time.
+//@ defblock CH_CONTRACT
+        inv_live(&*old(command_state), old(env)),
+        // while a grace timer is armed `recv` hands out only the timer's own control (disarming it) or urgent/high messages
+        // (C06.recv.normal_held_back_while_armed), and the Job API sends only Stop/Delete as urgent and NextEnding as high (C10.job.*)
+        $ARMED_PRE,
+        // a parked graceful-restart ticket is covered by its armed restart timer, or is already resolved; or this control is
+        // that timer's own control, just handed out by `recv` (C06+C07.recv.timer_control_carries_flag_and_kind)
+        inv_restart(*old(stop_timer), *old(on_end_restart), old(env))
+            || (control is ContinueTryGracefulRestart && *old(stop_timer) is None && *old(on_end_restart) is Some && (*old(on_end_restart))->Some_0.id == done.id),
+    ensures
+        // ---- C04 ----
+        inv_live(&*final(command_state), final(env)), // OBL:C04.control_handler.at_most_one_live_child
+        // ---- C07: tickets ----
+        r is Normally ==> final(env).raised@.contains(done.id), // OBL:C07.control_handler.completed_control_resolves_its_ticket
+        r is Skip ==> parked(done.id, *final(stop_timer), final(on_end)@, *final(on_end_restart)), // OBL:C07.control_handler.deferred_ticket_is_parked
+        r is Break ==> final(env).raised@.contains(done.id) && control is Delete, // OBL:C07+C09.control_handler.only_delete_ends_the_job
+        forall|f: int| (parked(f, *old(stop_timer), old(on_end)@, *old(on_end_restart)) || f == done.id) ==>
+            final(env).raised@.contains(f) || parked(f, *final(stop_timer), final(on_end)@, *final(on_end_restart)), // OBL:C07.control_handler.no_ticket_is_dropped
+        inv_restart(*final(stop_timer), *final(on_end_restart), final(env)), // OBL:C07.control_handler.restart_ticket_stays_covered
+        // no ticket resolves that is neither this control's nor a wait-for-end ticket of a process that ended
+        forall|f: int| final(env).raised@.contains(f) ==> old(env).raised@.contains(f) || f == done.id
+            || (reaped_in($ENVS, cs_view(&*old(command_state))) && all_ids(old(on_end)@).contains(f)), // OBL:C09.control_handler.no_early_resolution
+        // ---- C09/C06: the documented state machine, one clause per control ----
+        control is Start ==> c09_start($OV, $FV, $ENVS, command) && r is Normally, // OBL:C09.control.start
+        control is Stop ==> c09_stop($OV, $FV, $ENVS) && r is Normally, // OBL:C09.control.stop
+        control is TryRestart ==> c09_try_restart($OV, $FV, $ENVS, command) && r is Normally, // OBL:C09.control.try_restart
+        control is ContinueTryGracefulRestart ==> c09_continue($OV, $FV, $ENVS, command) && r is Normally, // OBL:C06+C09.control.continue_try_graceful_restart
+        // restart exactly once: once the replacement has been started for a graceful try-restart, no restart request stays pending
+        control is ContinueTryGracefulRestart && attempted_respawn($ENVS) ==> $FV.on_end_restart is None, // OBL:C06.control.continue_clears_pending_restart
+        control is GracefulStop ==> c09_graceful($OV, $FV, $ENVS, control->GracefulStop_signal, control->GracefulStop_grace, done.id, false, r is Skip), // OBL:C06+C09.control.graceful_stop
+        control is TryGracefulRestart ==> c09_graceful($OV, $FV, $ENVS, control->TryGracefulRestart_signal, control->TryGracefulRestart_grace, done.id, true, r is Skip), // OBL:C06+C09.control.try_graceful_restart
+        control is Signal ==> c09_signal($OV, $FV, $ENVS, control->Signal_0) && r is Normally, // OBL:C09.control.signal
+        control is Delete ==> n_of($ENVS) == 0 && unchanged($OV, $FV) && r is Break, // OBL:C09.control.delete
+        control is NextEnding ==> c09_next_ending($OV, $FV, $ENVS, done.id) && (r is Skip <==> cs_view(&*old(command_state)) is Running), // OBL:C09.control.next_ending
+        control is SyncFunc || control is AsyncFunc ==> c09_func($OV, $FV, $ENVS) && r is Normally, // OBL:C09.control.func
+        control is SetSyncSpawnHook ==> c09_set_hooks($OV, $FV, $ENVS, $OV.eh, SpawnHook::Sync(control->SetSyncSpawnHook_0)) && r is Normally, // OBL:C09.control.set_sync_spawn_hook
+        control is SetAsyncSpawnHook ==> c09_set_hooks($OV, $FV, $ENVS, $OV.eh, SpawnHook::Async(control->SetAsyncSpawnHook_0)) && r is Normally, // OBL:C09.control.set_async_spawn_hook
+        control is UnsetSpawnHook ==> c09_set_hooks($OV, $FV, $ENVS, $OV.eh, SpawnHook::None) && r is Normally, // OBL:C09.control.unset_spawn_hook
+        control is SetSyncErrorHandler ==> c09_set_hooks($OV, $FV, $ENVS, ErrorHandler::Sync(control->SetSyncErrorHandler_0), $OV.sh) && r is Normally, // OBL:C09.control.set_sync_error_handler
+        control is SetAsyncErrorHandler ==> c09_set_hooks($OV, $FV, $ENVS, ErrorHandler::Async(control->SetAsyncErrorHandler_0), $OV.sh) && r is Normally, // OBL:C09.control.set_async_error_handler
+        control is UnsetErrorHandler ==> c09_set_hooks($OV, $FV, $ENVS, ErrorHandler::None, $OV.sh) && r is Normally, // OBL:C09.control.unset_error_handler
+        final(env).now@ >= old(env).now@,
+//@ prologue
+broadcast use lemma_all_ids_push;
+$LOOPS3
+//@ enddef
+
+//@ item control_handler_start of control_handler
+//@ header
+#[verifier::spinoff_prover]
+fn control_handler_start($CH_PARAMS) -> (r: Loop)
+    requires
+        control is Start,
+$CH_CONTRACT
+
+//@ item control_handler_stop of control_handler
+//@ header
+#[verifier::spinoff_prover]
+fn control_handler_stop($CH_PARAMS) -> (r: Loop)
+    requires
+        control is Stop,
+$CH_CONTRACT
+
+//@ item control_handler_graceful_stop of control_handler
+//@ header
+#[verifier::spinoff_prover]
+fn control_handler_graceful_stop($CH_PARAMS) -> (r: Loop)
+    requires
+        control is GracefulStop,
+$CH_CONTRACT
+
+//@ item control_handler_try_restart of control_handler
+//@ header
+#[verifier::spinoff_prover]
+fn control_handler_try_restart($CH_PARAMS) -> (r: Loop)
+    requires
+        control is TryRestart,
+$CH_CONTRACT
+
+//@ item control_handler_try_graceful_restart of control_handler
+//@ header
+#[verifier::spinoff_prover]
+fn control_handler_try_graceful_restart($CH_PARAMS) -> (r: Loop)
+    requires
+        control is TryGracefulRestart,
+$CH_CONTRACT
+
+//@ item control_handler_continue of control_handler
+//@ header
+#[verifier::spinoff_prover]
+fn control_handler_continue($CH_PARAMS) -> (r: Loop)
+    requires
+        control is ContinueTryGracefulRestart,
+$CH_CONTRACT
+
+//@ item control_handler_signal of control_handler
+//@ header
+#[verifier::spinoff_prover]
+fn control_handler_signal($CH_PARAMS) -> (r: Loop)
+    requires
+        control is Signal,
+$CH_CONTRACT
+
+//@ item control_handler_delete of control_handler
+//@ header
+#[verifier::spinoff_prover]
+fn control_handler_delete($CH_PARAMS) -> (r: Loop)
+    requires
+        control is Delete,
+$CH_CONTRACT
+
+//@ item control_handler_next_ending of control_handler
+//@ header
+#[verifier::spinoff_prover]
+fn control_handler_next_ending($CH_PARAMS) -> (r: Loop)
+    requires
+        control is NextEnding,
+$CH_CONTRACT
+
+//@ item control_handler_func of control_handler
+//@ header
+#[verifier::spinoff_prover]
+fn control_handler_func($CH_PARAMS) -> (r: Loop)
+    requires
+        control is SyncFunc || control is AsyncFunc,
+$CH_CONTRACT
+
+//@ item control_handler_hooks of control_handler
+//@ header
+#[verifier::spinoff_prover]
+fn control_handler_hooks($CH_PARAMS) -> (r: Loop)
+    requires
+        control is SetSyncSpawnHook || control is SetAsyncSpawnHook || control is UnsetSpawnHook || control is SetSyncErrorHandler || control is SetAsyncErrorHandler || control is UnsetErrorHandler,
+$CH_CONTRACT
+
+//@ item control_groups_cover
+//@ raw
+pub proof fn lemma_control_groups_cover(control: Control)
+    ensures (control is Start) || (control is Stop) || (control is GracefulStop) || (control is TryRestart) || (control is TryGracefulRestart) || (control is ContinueTryGracefulRestart) || (control is Signal) || (control is Delete) || (control is NextEnding) || (control is SyncFunc || control is AsyncFunc) || (control is SetSyncSpawnHook || control is SetAsyncSpawnHook || control is UnsetSpawnHook || control is SetSyncErrorHandler || control is SetAsyncErrorHandler || control is UnsetErrorHandler), // OBL:C09.control_groups.exhaustive
+{}
+//@ end
